@@ -96,7 +96,15 @@ package bech32
 //@   assert after append#2: forall j :: 0 <= j && j < 6 ==> combined[len(data) + j] == u8((bech32.cksum(hrp, len(hrp), data, len(data)) >> u64(5 * (5 - j))) & 31)
 
 //@ func bech32.ConvertBits
+//@   ensures (fromBits < 1 || fromBits > 8 || toBits < 1 || toBits > 8) ==> err != nil
+//@   ensures err == nil && pad ==> int(toBits) * len(result0) >= int(fromBits) * len(data) && int(toBits) * len(result0) < int(fromBits) * len(data) + int(toBits)
+//@   ensures err == nil && !pad ==> int(toBits) * len(result0) <= int(fromBits) * len(data) && int(fromBits) * len(data) - int(toBits) * len(result0) <= 4
+//@   ensures err == nil ==> forall k :: 0 <= k && k < len(result0) ==> u16(result0[k]) < (u16(1) << u16(toBits))
 //@   modifies nothing
-//@   loop 1 invariant filledBits < toBits && freshornil(regrouped)
-//@   loop 2 invariant filledBits < toBits && remFromBits <= 8 && freshornil(regrouped)
+//@   loop 1 invariant filledBits < toBits && freshornil(regrouped) && fromBits >= 1 && fromBits <= 8 && toBits >= 1 && toBits <= 8
+//@   loop 1 invariant int(fromBits) * $i == int(toBits) * len(regrouped) + int(filledBits)
+//@   loop 1 invariant u16(nextByte) < (u16(1) << u16(filledBits)) && forall k :: 0 <= k && k < len(regrouped) ==> u16(regrouped[k]) < (u16(1) << u16(toBits))
+//@   loop 2 invariant filledBits < toBits && remFromBits <= fromBits && freshornil(regrouped) && fromBits >= 1 && fromBits <= 8 && toBits >= 1 && toBits <= 8
+//@   loop 2 invariant int(fromBits) * $i1 + int(fromBits) - int(remFromBits) == int(toBits) * len(regrouped) + int(filledBits)
+//@   loop 2 invariant u16(nextByte) < (u16(1) << u16(filledBits)) && forall k :: 0 <= k && k < len(regrouped) ==> u16(regrouped[k]) < (u16(1) << u16(toBits))
 //@   loop 2 decreases int(remFromBits)
